@@ -338,3 +338,18 @@ class Gen(object):
 
 def gen_trace(rng, nvars, n, lo=-4, hi=6):
     return [[rng.randint(lo, hi) for _ in range(n)] for _ in range(nvars)]
+
+
+def arith_boundary_cases():
+    """deterministic cases at the edges of the arithmetic functions (square root of 0, exp beyond the floats in both directions, ln 1, 0 ** 0,
+    division of 0): [(formula, columns)], exact in the model"""
+    X, Y = ('var', 0), ('var', 1)
+    P = lambda t, k=0: ('pred', 'geq', t, ('const', k))
+    out = []
+    for t, cols in [(('a1', 'sqrt', X), [[0, 1, 4, 0, 9], [1, 1, 1, 1, 1]]), (('a1', 'sqrt', ('a2', 'mul', X, Y)), [[0, 2, 3, 0], [5, 2, 3, 0]]),
+                    (('a1', 'exp', X), [[0, 1000, -1000, 710, -746, 0], [0, 0, 0, 0, 0, 0]]), (('a1', 'exp', ('a2', 'mul', X, Y)), [[0, 40, -40, 0], [0, 20, 20, 7]]),
+                    (('a1', 'ln', X), [[1, 1, 1], [0, 0, 0]]), (('a2', 'pow', X, Y), [[0, 2, -2, 3, 1], [0, 3, 3, 0, 8]]), (('a2', 'div', X, Y), [[0, 4, -8, 0], [2, 2, -4, -1]]),
+                    (('a2', 'log', ('const', 1), Y), [[0, 0, 0], [2, 3, 10]]), (('a1', 'abs', ('a1', 'neg', X)), [[0, -3, 3], [0, 0, 0]])]:
+        for f in (P(t), ('once', P(t, 1)), ('hist', ('pred', 'leq', t, ('const', 2))), ('since', P(t), P(Y, 1))):
+            out.append((f, cols))
+    return out
